@@ -29,6 +29,7 @@ type GV struct {
 	F   []GV            `json:"f,omitempty"`
 	T   string          `json:"t,omitempty"`
 	Why string          `json:"why,omitempty"`
+	Rev bool            `json:"rev,omitempty"` // a list whose elements may also come in the reverse order (reverse-axis result)
 }
 
 var primTypes = map[string]reflect.Type{
@@ -217,7 +218,7 @@ func projectF(v reflect.Value, t *TypeD, fresh bool) GV {
 
 // expected filled value (spec) in the same shape as project()
 func (g GV) norm() GV {
-	out := GV{K: g.K, V: g.V}
+	out := GV{K: g.K, V: g.V, Rev: g.Rev}
 	if g.K == "list" {
 		var elems []GV
 		json.Unmarshal(g.V, &elems)
@@ -251,8 +252,19 @@ func sameGV(a, b GV) bool {
 	if a.K == "str" || a.K == "bool" {
 		return string(a.V) == string(b.V)
 	}
+	fwd := true
 	for i := range a.F {
 		if !sameGV(a.F[i], b.F[i]) {
+			fwd = false
+			break
+		}
+	}
+	if fwd || !(a.K == "list" && (a.Rev || b.Rev)) {
+		return fwd
+	}
+	// a list filled from a reverse-axis result: "result order" may be descending
+	for i := range a.F {
+		if !sameGV(a.F[len(a.F)-1-i], b.F[i]) {
 			return false
 		}
 	}
